@@ -700,18 +700,30 @@ func (e *Env) evalCall(t *ast.CallExpr) Val {
 				hi := e.eval(t.Args[2]).term()
 				rng := And(Le(lo, bv), Lt(bv, hi))
 				b := env.evalBool(t.Args[3])
-				// re-index over absolute array positions when every array access is at OFF+k:
-				// the quantifier then has a plain select pattern (robust E-matching)
-				if off := commonIndexOffset(b, bv.Op); off != nil {
-					c.nfresh++
-					av := Var(fmt.Sprintf("%s!a%d", name, c.nfresh), SInt)
-					b = reindex(b, bv.Op, off, av)
-					rng = And(Le(Add(lo, off), av), Lt(av, Add(hi, off)))
-					bv = av
-				}
-				if id.Name == "forall" {
+				// re-index over absolute array positions: for every distinct offset OFF such that some array is
+				// accessed at OFF+k, emit a copy of the quantifier over a = OFF+k. Each copy is equivalent to the
+				// original and has a plain select pattern for that array (robust E-matching).
+				offs := indexOffsets(b, bv.Op)
+				if len(offs) > 0 && id.Name == "forall" {
+					var copies []*Term
+					for _, off := range offs {
+						c.nfresh++
+						av := Var(fmt.Sprintf("%s!a%d", name, c.nfresh), SInt)
+						nb := reindex(b, bv.Op, off, av)
+						nr := And(Le(Add(lo, off), av), Lt(av, Add(hi, off)))
+						copies = append(copies, Forall([]*Term{av}, Imp(nr, nb)))
+					}
+					body = And(copies...)
+				} else if id.Name == "forall" {
 					body = Forall([]*Term{bv}, Imp(rng, b))
 				} else {
+					if len(offs) > 0 {
+						c.nfresh++
+						av := Var(fmt.Sprintf("%s!a%d", name, c.nfresh), SInt)
+						b = reindex(b, bv.Op, offs[0], av)
+						rng = And(Le(Add(lo, offs[0]), av), Lt(av, Add(hi, offs[0])))
+						bv = av
+					}
 					body = Exists([]*Term{bv}, And(rng, b))
 				}
 			} else if len(t.Args) == 2 {
@@ -1050,24 +1062,21 @@ func (c *FnCtx) mapLen(st *State, m Val) *Term {
 	return App("maplen_"+ks, SInt, Select(has, m.L[0]))
 }
 
-// commonIndexOffset inspects the index arguments of select terms mentioning the bound variable k and returns
-// the k-free OFF of the first index of shape (+ OFF k) (nil if there is none, or if a bare k index exists:
-// then the quantifier already has a plain select pattern).
-func commonIndexOffset(t *Term, k string) *Term {
-	var off *Term
-	bare := false
+// indexOffsets inspects the index arguments of select terms mentioning the bound variable k. An index that is
+// a sum in which k occurs exactly once as a bare summand contributes OFF = the sum of the other summands.
+// Returns the distinct non-zero OFFs (at most 3); nil if some index is the bare k (plain pattern exists already
+// for that array; other arrays still get their copies).
+func indexOffsets(t *Term, k string) []*Term {
+	var offs []*Term
+	seen := map[string]bool{}
 	var walk func(x *Term)
 	walk = func(x *Term) {
 		if x.Op == "select" && len(x.Args) == 2 && mentionsAny(x.Args[1], []string{k}) {
-			idx := x.Args[1]
-			if len(idx.Args) == 0 && idx.Op == k {
-				bare = true
-			}
-			if off == nil && idx.Op == "+" && len(idx.Args) == 2 {
-				if idx.Args[1].Op == k && len(idx.Args[1].Args) == 0 && !mentionsAny(idx.Args[0], []string{k}) {
-					off = idx.Args[0]
-				} else if idx.Args[0].Op == k && len(idx.Args[0].Args) == 0 && !mentionsAny(idx.Args[1], []string{k}) {
-					off = idx.Args[1]
+			if off := splitOffset(x.Args[1], k); off != nil {
+				key := off.String()
+				if !seen[key] && len(offs) < 3 {
+					seen[key] = true
+					offs = append(offs, off)
 				}
 			}
 		}
@@ -1076,13 +1085,46 @@ func commonIndexOffset(t *Term, k string) *Term {
 		}
 	}
 	walk(t)
-	if bare {
+	return offs
+}
+
+// splitOffset: idx == OFF + k with k bare and OFF k-free -> OFF (nil otherwise or when OFF is empty).
+func splitOffset(idx *Term, k string) *Term {
+	var summands []*Term
+	var flat func(x *Term)
+	flat = func(x *Term) {
+		if x.Op == "+" && len(x.Args) >= 2 {
+			for _, a := range x.Args {
+				flat(a)
+			}
+			return
+		}
+		summands = append(summands, x)
+	}
+	flat(idx)
+	nk := 0
+	var rest []*Term
+	for _, sm := range summands {
+		if len(sm.Args) == 0 && sm.Op == k {
+			nk++
+			continue
+		}
+		if mentionsAny(sm, []string{k}) {
+			return nil
+		}
+		rest = append(rest, sm)
+	}
+	if nk != 1 || len(rest) == 0 {
 		return nil
+	}
+	off := rest[0]
+	for _, r := range rest[1:] {
+		off = Add(off, r)
 	}
 	return off
 }
 
-// reindex replaces (+ off k) by a and every other occurrence of k by (- a off).
+// reindex rewrites t for a = off + k: index sums equal to off+k become a, every other k becomes (a - off).
 func reindex(t *Term, k string, off *Term, a *Term) *Term {
 	offS := off.String()
 	var rec func(x *Term) *Term
@@ -1093,11 +1135,8 @@ func reindex(t *Term, k string, off *Term, a *Term) *Term {
 			}
 			return x
 		}
-		if x.Op == "+" && len(x.Args) == 2 {
-			if x.Args[1].Op == k && len(x.Args[1].Args) == 0 && x.Args[0].String() == offS {
-				return a
-			}
-			if x.Args[0].Op == k && len(x.Args[0].Args) == 0 && x.Args[1].String() == offS {
+		if x.Op == "+" {
+			if o := splitOffset(x, k); o != nil && o.String() == offS {
 				return a
 			}
 		}
